@@ -36,6 +36,8 @@ def glib? : Sexp → Option (RawGds.LabelTbl × RawGds.Lib)
   | .list (.atom "glib" :: n :: u :: .list (.atom "layers" :: rows) :: cells) => do
     let tbl ← rows.mapM (fun r => match r with
       | .list [ln, lp] => do pure ((← int? ln, ← optInt? lp) : Int × Option Int)
+      -- `(ln lp split)`: two layer objects share the number (harness side); the model keys layers by number
+      | .list [ln, lp, _] => do pure ((← int? ln, ← optInt? lp) : Int × Option Int)
       | _ => none)
     pure (tbl, ⟨← bytes? n, ← nat? u, ← cells.mapM gcell?⟩)
   | _ => none
